@@ -593,12 +593,27 @@ type pooled struct {
 
 var verifierPool = map[string]*pooled{}
 
-func sharedVerifier(issuer string, vs vset, custom, keySetCtor bool, regs []reg, clients [][2]string) (*store, *op.JWTProfileVerifier) {
-	k := fmt.Sprintf("%s|%d|%d|%v|%v", issuer, vs.maxAge, vs.offset, custom, keySetCtor)
+// vbuild: HOW the verifier is built - constructor (both public ones, or a struct literal:
+// the fields are exported) x subject check (the default; a caller-supplied one that accepts
+// everything / exactly one subject; none at all = nil) x the way the check gets there
+// (option, field assignment after construction, left out).
+type vbuild struct {
+	ctor string // storage | keyset | literal
+	sub  string // default | any | only | nil
+	only string // the one subject an "only" check accepts
+	via  int    // 0: the plainest way (no option for the default, option otherwise); 1: op.SubjectCheck(f) also for the default / a typed nil func variable; 2: v.CheckSubject = f afterwards
+}
+
+func (b vbuild) key() string { return fmt.Sprintf("%s/%s/%s/%d", b.ctor, b.sub, b.only, b.via) }
+
+var stdBuild = vbuild{ctor: "storage", sub: "default"}
+
+func sharedVerifier(issuer string, vs vset, vb vbuild, regs []reg, clients [][2]string) (*store, *op.JWTProfileVerifier) {
+	k := fmt.Sprintf("%s|%d|%d|%s", issuer, vs.maxAge, vs.offset, vb.key())
 	p := verifierPool[k]
 	if p == nil {
 		st := &store{}
-		p = &pooled{st: st, v: newVerifier(st, issuer, vs, custom, keySetCtor)}
+		p = &pooled{st: st, v: newVerifier(st, issuer, vs, vb)}
 		verifierPool[k] = p
 	}
 	p.st.regs, p.st.clients = regs, clients
@@ -879,15 +894,12 @@ func runAssertion(entry, tok string, st *store, v *op.JWTProfileVerifier) (obs s
 	return
 }
 
-func vTerm(issuer string, vs vset, custom, keySetCtor bool) string {
-	sc := "SubIsIssuer"
-	if custom {
-		sc = "SubAny"
+func vTerm(issuer string, vs vset, vb vbuild) string {
+	sc := map[string]string{"default": "SubIsIssuer", "any": "SubAny", "nil": "SubNil"}[vb.sub]
+	if vb.sub == "only" {
+		sc = emit.Ctor("SubOnly", emit.Str(vb.only))
 	}
-	ct := "CtorStorage"
-	if keySetCtor {
-		ct = "CtorKeySet"
-	}
+	ct := map[string]string{"storage": "CtorStorage", "keyset": "CtorKeySet", "literal": "CtorLiteral"}[vb.ctor]
 	return emit.Ctor("mkV", emit.Str(issuer), emit.Z(int64(vs.maxAge)), emit.Z(int64(vs.offset)), sc, ct)
 }
 
@@ -908,16 +920,44 @@ func (k *issuerKeySet) VerifySignature(ctx context.Context, jws *jose.JSONWebSig
 	return jws.Verify(key)
 }
 
-// newVerifier goes through one of the two public constructors, with or without the SubjectCheck option.
-func newVerifier(st *store, issuer string, vs vset, custom, keySetCtor bool) *op.JWTProfileVerifier {
+// newVerifier builds the verifier the way vb says.
+func newVerifier(st *store, issuer string, vs vset, vb vbuild) *op.JWTProfileVerifier {
+	var f func(*oidc.JWTTokenRequest) error // nil = no subject check at all
+	switch vb.sub {
+	case "default":
+		f = op.SubjectIsIssuer
+	case "any":
+		f = func(*oidc.JWTTokenRequest) error { return nil }
+	case "only":
+		only := vb.only
+		f = func(r *oidc.JWTTokenRequest) error {
+			if r.Subject != only {
+				return errors.New("subject not allowed")
+			}
+			return nil
+		}
+	}
+	if vb.ctor == "literal" {
+		v := &op.JWTProfileVerifier{Verifier: oidc.Verifier{Issuer: issuer, MaxAgeIAT: vs.maxAge, Offset: vs.offset}, Storage: st}
+		if f != nil || vb.via == 2 {
+			v.CheckSubject = f
+		}
+		return v
+	}
 	var opts []op.JWTProfileVerifierOption
-	if custom {
-		opts = append(opts, op.SubjectCheck(func(*oidc.JWTTokenRequest) error { return nil }))
+	if vb.via == 1 || (vb.via == 0 && vb.sub != "default") {
+		opts = append(opts, op.SubjectCheck(f))
 	}
-	if keySetCtor {
-		return op.NewJWTProfileVerifierKeySet(&issuerKeySet{st: st}, issuer, vs.maxAge, vs.offset, opts...)
+	var v *op.JWTProfileVerifier
+	if vb.ctor == "keyset" {
+		v = op.NewJWTProfileVerifierKeySet(&issuerKeySet{st: st}, issuer, vs.maxAge, vs.offset, opts...)
+	} else {
+		v = op.NewJWTProfileVerifier(st, issuer, vs.maxAge, vs.offset, opts...)
 	}
-	return op.NewJWTProfileVerifier(st, issuer, vs.maxAge, vs.offset, opts...)
+	if vb.via == 2 {
+		v.CheckSubject = f
+	}
+	return v
 }
 
 // omitEmpty: an empty claim is left out of the JSON (otherwise it is sent empty half of the time)
@@ -954,7 +994,10 @@ func assertionCase(r drv.Rand, w *emit.Writer, wd world, bump func(string)) {
 	entry := drv.Pick(r, entries)
 	issuer := drv.Pick(r, issuers)
 	vs := drv.Pick(r, vsets)
-	custom := r.Chance(1, 7)
+	vb := stdBuild
+	if r.Chance(1, 7) {
+		vb.sub = "any"
+	}
 	named := drv.Pick(r, []string{"c-alpha", "c-alpha", "c-beta", "c-beta", "c-gamma", "c-delta"})
 	long := r.Chance(1, 25)
 	if long {
@@ -975,7 +1018,7 @@ func assertionCase(r drv.Rand, w *emit.Writer, wd world, bump func(string)) {
 			rcall = cycleRouterCall(r, cycle, named)
 		}
 		entryTerm = rcall.term()
-		issuer, vs, custom = "https://"+rcall.host, vset{time.Hour, time.Second}, false
+		issuer, vs, vb = "https://"+rcall.host, vset{time.Hour, time.Second}, stdBuild
 		otherTenant = "https://" + drv.Pick(r, routerHosts)
 	}
 	own := drv.Pick(r, wd.regsOf(named))
@@ -1005,12 +1048,37 @@ func assertionCase(r drv.Rand, w *emit.Writer, wd world, bump func(string)) {
 	if cycle != "" {
 		nm, near = 0, false
 	}
+	// subject matrix: every way to build a verifier x every kind of subject check x an assertion
+	// whose subject is its issuer / another registered client / anybody / absent, all else valid
+	subMatrix := !router && r.Chance(1, 6)
+	if subMatrix {
+		nm, near = 0, false
+		if named == "c-gamma" || named == "c-delta" {
+			named = "c-alpha"
+			own = drv.Pick(r, wd.regsOf(named))
+			plan = tokPlan{kind: "jws", key: own.key, kid: own.kid, alg: drv.Pick(r, naturalAlgs(own.key.kind))}
+			c.iss = named
+		}
+		foreign := drv.Pick(r, []string{"c-beta", "someone", "admin", "C-ALPHA", "c-alpha", ""})
+		c.sub = drv.Pick(r, []string{named, foreign, foreign, foreign})
+		vb.sub = drv.Pick(r, []string{"default", "any", "only", "nil", "nil"})
+		vb.only = drv.Pick(r, []string{foreign, foreign, named, "someone"})
+		if vb.sub != "only" {
+			vb.only = ""
+		}
+		vb.via = r.IntN(3)
+	}
 	if cycle == "" {
 		tags = append(tags, "cycle=none")
 	} else {
 		tags = append(tags, "cycle="+cycle)
 	}
 	omitEmpty := false
+	var fullBefore *claimsD // the claims before an "absent" mutation removed some
+	absentPair := cycle == "" && !subMatrix && !near && r.Chance(1, 10)
+	if absentPair {
+		nm = 1
+	}
 	crossTenant := router && cycle == "" && !near && otherTenant != issuer && r.Chance(1, 3)
 	if crossTenant { // addressed to another tenant (request issuer) of the same provider, otherwise valid
 		nm = 1
@@ -1023,10 +1091,17 @@ func assertionCase(r drv.Rand, w *emit.Writer, wd world, bump func(string)) {
 		if crossTenant {
 			m = "cross_tenant"
 		}
+		if absentPair {
+			m = "absent"
+		}
 		muts = append(muts, m)
 		switch m {
 		case "absent": // a claim the previous requests on this verifier / provider carried is left out entirely
 			omitEmpty = true
+			if fullBefore == nil {
+				fc := c
+				fullBefore = &fc
+			}
 			switch r.IntN(6) {
 			case 0:
 				c.iss = ""
@@ -1157,11 +1232,21 @@ func assertionCase(r drv.Rand, w *emit.Writer, wd world, bump func(string)) {
 	case "json":
 		tok, tokTerm = malformed(r, "json", tok), "TBadJson"
 	}
-	keySetCtor := !router && r.Chance(1, 3)
-	tags = append(tags, fmt.Sprintf("ctor_keyset=%v", keySetCtor))
-	st, v := sharedVerifier(issuer, vs, custom, keySetCtor, regs, wd.clients)
+	if !router {
+		vb.ctor = drv.Pick(r, []string{"storage", "storage", "keyset", "keyset", "literal"})
+		if !subMatrix {
+			vb.via = r.IntN(3)
+		}
+	}
+	tags = append(tags, "ctor="+vb.ctor, "subject_check="+vb.sub, fmt.Sprintf("check_via=%d", vb.via), fmt.Sprintf("subject_matrix=%v", subMatrix))
+	st, v := sharedVerifier(issuer, vs, vb, regs, wd.clients)
 	if router {
 		syncRouterKeys(routerFx, regs)
+	}
+	if fullBefore != nil && r.Chance(3, 4) { // the complete assertion goes first, through the same entry: whatever is recycled between requests now holds its claims
+		if full, err := signCompact(own.key, drv.Pick(r, naturalAlgs(own.key.kind)), own.kid, claimsJSON(*fullBefore, audString, r, false)); err == nil {
+			primed, primeTok = true, full
+		}
 	}
 	tags = append(tags, fmt.Sprintf("primed=%v", primed))
 	if primed {
@@ -1179,10 +1264,10 @@ func assertionCase(r drv.Rand, w *emit.Writer, wd world, bump func(string)) {
 			return
 		}
 	}
-	in := emit.Ctor("IAssert", entryTerm, emit.None, vTerm(issuer, vs, custom, keySetCtor), regsTerm(regs), clientsTerm(wd.clients), emit.Z(t0), emit.Z(t1), tokTerm)
+	in := emit.Ctor("IAssert", entryTerm, emit.None, vTerm(issuer, vs, vb), regsTerm(regs), clientsTerm(wd.clients), emit.Z(t0), emit.Z(t1), tokTerm)
 	w.Add(emit.Case{Input: in, Observed: obs, Tags: tags,
 		Human: map[string]any{"entry": entryTerm, "token": tok, "issuer": issuer, "max_age": vs.maxAge.String(), "offset": vs.offset.String(),
-			"custom_subject_check": custom, "claims": fmt.Sprintf("%+v", c), "sig": fmt.Sprintf("%+v", d), "mutations": muts}})
+			"verifier_built": vb.key(), "claims": fmt.Sprintf("%+v", c), "sig": fmt.Sprintf("%+v", d), "mutations": muts}})
 }
 
 // helperCase: assertions built by the library's own client helpers.
@@ -1556,8 +1641,11 @@ func presentHelper(r drv.Rand, w *emit.Writer, wd world, bump func(string), in *
 	}
 	d := sigDesc{true, hdr.Alg, hdr.Kid, cd.key.id, true}
 	c := claimsD{pl.Iss, pl.Sub, pl.Aud, pl.Iat, pl.Exp}
-	keySetCtor := !router && r.Chance(1, 3)
-	st, v := sharedVerifier(issuer, vs, false, keySetCtor, wd.regs, wd.clients)
+	vb := stdBuild
+	if !router {
+		vb = vbuild{ctor: drv.Pick(r, []string{"storage", "keyset", "literal"}), sub: drv.Pick(r, []string{"default", "default", "any"}), via: r.IntN(3)}
+	}
+	st, v := sharedVerifier(issuer, vs, vb, wd.regs, wd.clients)
 	if router {
 		syncRouterKeys(routerFx, wd.regs)
 	}
@@ -1575,10 +1663,10 @@ func presentHelper(r drv.Rand, w *emit.Writer, wd world, bump func(string), in *
 		nth = fmt.Sprint(in.calls)
 	}
 	hterm := emit.Some(emit.Ctor("mkH", emit.Z(h0), emit.Z(h1), emit.Z(3600)))
-	inp := emit.Ctor("IAssert", entryTerm, hterm, vTerm(issuer, vs, false, keySetCtor), regsTerm(wd.regs), clientsTerm(wd.clients), emit.Z(t0), emit.Z(t1),
+	inp := emit.Ctor("IAssert", entryTerm, hterm, vTerm(issuer, vs, vb), regsTerm(wd.regs), clientsTerm(wd.clients), emit.Z(t0), emit.Z(t1),
 		emit.Ctor("TJws", d.term(), c.term()))
 	w.Add(emit.Case{Input: inp, Observed: obs,
-		Tags: append([]string{"kind=assertion", "entry=" + entry, "helper=1", "helperfn=" + in.path, "keytype=" + cd.key.kind, fmt.Sprintf("ctor_keyset=%v", keySetCtor),
+		Tags: append([]string{"kind=assertion", "entry=" + entry, "helper=1", "helperfn=" + in.path, "keytype=" + cd.key.kind, "ctor="+vb.ctor, "subject_check="+vb.sub,
 			"helper_call=" + nth, fmt.Sprintf("after_pause=%v", afterPause), fmt.Sprintf("short_max_age=%v", vs.maxAge != 0 && vs.maxAge < time.Minute)}, rtags...),
 		Human: map[string]any{"entry": entryTerm, "token": tok, "issuer": issuer, "helper": in.path, "client": cd.client, "kid": cd.kid, "key": cd.key.id,
 			"call_number_on_instance": in.calls, "since_first_call": time.Duration(h0 - in.first.UnixNano()).String(), "max_age": vs.maxAge.String(), "offset": vs.offset.String(),
@@ -1597,6 +1685,10 @@ type arD struct {
 	idTokenHint, loginHint                            string
 	acr                                               []string
 	cc, ccm                                           string
+	// raw: members written into the object's JSON as they are (nil = the literal null), after
+	// everything else - for values that are present but empty; the fields above then hold
+	// what such a member decodes to
+	raw map[string]any
 }
 
 func (a arD) term() string {
@@ -1667,6 +1759,9 @@ func innerJSON(iss string, aud []string, audString bool, a arD) []byte {
 	putl("acr_values", a.acr)
 	put("code_challenge", a.cc)
 	put("code_challenge_method", a.ccm)
+	for k, v := range a.raw {
+		m[k] = v
+	}
 	return must(json.Marshal(m))
 }
 
@@ -1752,12 +1847,73 @@ func requestCase(r drv.Rand, w *emit.Writer, wd world) {
 	if r.Chance(1, 3) {
 		inner.cc, inner.ccm = "inner-challenge", drv.Pick(r, []string{"S256", ""})
 	}
+	// zero dimension: members that are PRESENT in the object with a zero / empty value (max_age 0,
+	// "", null) against non-zero plain values of the same members
+	zero := r.Chance(1, 3)
+	var zeroed []string
+	if zero {
+		inner.raw = map[string]any{}
+		members := []string{"max_age", "max_age", "max_age", "state", "nonce", "redirect_uri", "response_mode", "display", "login_hint", "id_token_hint",
+			"code_challenge", "code_challenge_method", "scope", "prompt", "ui_locales", "acr_values"}
+		for k, n := 0, 1+r.IntN(3); k < n; k++ {
+			m := drv.Pick(r, members)
+			null := r.Chance(1, 3)
+			var lit any = ""
+			if null {
+				lit = nil
+			}
+			zeroed = append(zeroed, fmt.Sprintf("%s:null=%v", m, null))
+			switch m {
+			case "max_age":
+				outer.maxAge = uintp(uint(1 + r.IntN(7200)))
+				if r.Chance(1, 5) {
+					outer.maxAge = nil
+				}
+				inner.maxAge = uintp(0) // present: overrides
+				delete(inner.raw, m)
+				if null {
+					inner.maxAge, inner.raw[m] = nil, nil // null = absent
+				}
+				continue
+			case "state":
+				outer.state, inner.state = "st-outer", ""
+			case "nonce":
+				outer.nonce, inner.nonce = "n-outer", ""
+			case "redirect_uri":
+				outer.redirectURI, inner.redirectURI = "https://rp.example.com/cb", ""
+			case "response_mode":
+				outer.responseMode, inner.responseMode = "query", ""
+			case "display":
+				outer.display, inner.display = "page", ""
+			case "login_hint":
+				outer.loginHint, inner.loginHint = "bob@outer", ""
+			case "id_token_hint":
+				outer.idTokenHint, inner.idTokenHint = "hint-o", ""
+			case "code_challenge":
+				outer.cc, inner.cc = "outer-challenge", ""
+			case "code_challenge_method":
+				outer.ccm, inner.ccm = "plain", ""
+			case "scope": // "" and null both decode to the one-element list [""]
+				outer.scopes, inner.scopes = []string{"openid", "profile"}, []string{""}
+			case "prompt":
+				outer.prompt, inner.prompt = []string{"login"}, []string{""}
+			case "ui_locales": // decodes to no locale at all
+				outer.uiLocales, inner.uiLocales = []string{"fr"}, nil
+			case "acr_values":
+				outer.acr, inner.acr = []string{"acr-o"}, []string{""}
+			}
+			inner.raw[m] = lit
+		}
+	}
 	iss := named
 	aud := []string{issuer}
 	audString := r.Chance(1, 4)
 	regs := wd.regs
 	muts := []string{}
 	nm := []int{0, 0, 0, 0, 0, 1, 1, 1, 1, 2}[r.IntN(10)]
+	if zero && r.Chance(2, 3) {
+		nm = 0
+	}
 	near := r.Chance(3, 10) // exactly one near-miss string, everything else valid
 	if long && r.Bool() {
 		near = true
@@ -1871,7 +2027,10 @@ func requestCase(r drv.Rand, w *emit.Writer, wd world) {
 	if len(muts) == 0 {
 		muts = []string{"none"}
 	}
-	tags := []string{"kind=request", fmt.Sprintf("long_client=%v", long), fmt.Sprintf("via_authorize=%v", via), fmt.Sprintf("supported=%v", supported), "keytype=" + plan.key.kind, fmt.Sprintf("nmut=%d", nm)}
+	tags := []string{"kind=request", fmt.Sprintf("long_client=%v", long), fmt.Sprintf("via_authorize=%v", via), fmt.Sprintf("supported=%v", supported), "keytype=" + plan.key.kind, fmt.Sprintf("nmut=%d", nm), fmt.Sprintf("zero_members=%v", zero)}
+	for _, z := range zeroed {
+		tags = append(tags, "zero="+strings.ReplaceAll(z, ":null=", "_null_"))
+	}
 	for _, m := range muts {
 		tags = append(tags, "mut="+m)
 	}
@@ -1879,6 +2038,12 @@ func requestCase(r drv.Rand, w *emit.Writer, wd world) {
 	signedInner := inner
 	if plan.sigMut == "payload" { // the signed object asked for something else
 		signedInner.redirectURI = "https://rp.example.com/signed"
+		signedInner.raw = map[string]any{}
+		for k, v := range inner.raw {
+			if k != "redirect_uri" {
+				signedInner.raw[k] = v
+			}
+		}
 	}
 	tok, d, err := plan.build(r, innerJSON(iss, aud, audString, signedInner), payload)
 	if err != nil {
@@ -1935,6 +2100,18 @@ func requestCase(r drv.Rand, w *emit.Writer, wd world) {
 		set("scope", strings.Join(outer.scopes, " "))
 		set("state", outer.state)
 		set("nonce", outer.nonce)
+		set("response_mode", outer.responseMode)
+		set("display", outer.display)
+		set("prompt", strings.Join(outer.prompt, " "))
+		if outer.maxAge != nil {
+			q.Set("max_age", fmt.Sprint(*outer.maxAge))
+		}
+		set("ui_locales", strings.Join(outer.uiLocales, " "))
+		set("id_token_hint", outer.idTokenHint)
+		set("login_hint", outer.loginHint)
+		set("acr_values", strings.Join(outer.acr, " "))
+		set("code_challenge", outer.cc)
+		set("code_challenge_method", outer.ccm)
 		q.Set("request", tok)
 		hr := httptest.NewRequest(http.MethodGet, "/authorize?"+q.Encode(), nil)
 		hr = hr.WithContext(op.ContextWithIssuer(hr.Context(), issuer))
